@@ -293,7 +293,7 @@ pub fn run(ctx: &Ctx) {
     ctx.generated(
         "random",
         "fmt",
-        t.pick(600_000, 15_000_000),
+        t.pick(1_500_000, 15_000_000),
         "up to 300 digits, scales -1100..400, N in 0..30 / 0..1100 / 990..1010 / aimed at a tie, near-tie or all-nines tail / below half a unit of the last place; random flags and width 0..40",
         move || fmt_strategy(max_len),
         check_fmt,
